@@ -41,6 +41,7 @@ type c12Spec struct {
 	AdjExtra            string
 	Cache               string
 	SigValue            string
+	SetupPad            int // extra setup values per dimension, in no particular order
 }
 
 type c12KV struct {
@@ -102,6 +103,13 @@ func (sp c12Spec) build(f func(string) string, perm map[string]string) *pipeline
 	m := &pipeline.Matrix{Setup: pipeline.MatrixSetup{}, RemainingFields: map[string]any{"mx": sp.MatrixExtra}}
 	for d, v := range perm {
 		m.Setup[d] = []string{"other", v}
+		for k := sp.SetupPad; k > 0; k-- {
+			// descending, with the permutation's value somewhere in the middle
+			m.Setup[d] = append(m.Setup[d], fmt.Sprintf("pad-%03d", (k*37)%101))
+			if k == sp.SetupPad/2 {
+				m.Setup[d] = append(m.Setup[d], "zz-late")
+			}
+		}
 	}
 	if len(perm) > 0 {
 		w := pipeline.MatrixAdjustmentWith{}
@@ -213,6 +221,11 @@ func checkC12(c *run.Ctx) {
 		}
 		sp := c12Spec{Command: str("command"), Label: str("label"), Key: str("key_outofscope"),
 			MatrixExtra: str("matrix_outofscope"), AdjExtra: str("matrix_outofscope"), SigValue: str("signature_outofscope")}
+		if i%9 == 4 {
+			// dimensions with 24 to 90 values in no particular order: validation reads the matrix, it does not rearrange it
+			sp.SetupPad = []int{21, 22, 23, 30, 64, 88}[r.IntN(6)]
+			c.Count("steps_with_dimensions_of_23_and_more_values", 1)
+		}
 		nenv, nplug := r.IntN(4), r.IntN(3)
 		if i%12 == 0 {
 			// a large step: 17-40 plugins and env entries together
